@@ -105,7 +105,7 @@ impl LinkFlowStateInner {
 impl LinkFlowState<role::SenderMarker> {
 //@@ fn file=fe2o3-amqp/src/link/state.rs impl=`impl LinkFlowState<role::SenderMarker>` name=on_incoming_flow as=sender_on_incoming_flow
 //@@ selfmut
-//@@ subst `self.lock.write()` => `&mut self.lock` rule=R4
+//@@ subst `self.lock.write()` => `(&mut self.lock)` rule=R4
 //@@ spec
     ensures
         ({
@@ -133,7 +133,7 @@ impl LinkFlowState<role::SenderMarker> {
 impl LinkFlowState<role::ReceiverMarker> {
 //@@ fn file=fe2o3-amqp/src/link/state.rs impl=`impl LinkFlowState<role::ReceiverMarker>` name=on_incoming_flow as=receiver_on_incoming_flow
 //@@ selfmut
-//@@ subst `self.lock.write()` => `&mut self.lock` rule=R4
+//@@ subst `self.lock.write()` => `(&mut self.lock)` rule=R4
 //@@ spec
     ensures
         final(self).lock.delivery_count == (if flow.delivery_count is Some { flow.delivery_count->Some_0 } else { old(self).lock.delivery_count }),   // [C09.flow.learn-count] the sender's delivery-count is taken from its flow
@@ -147,7 +147,7 @@ impl LinkFlowState<role::ReceiverMarker> {
 
 //@@ fn file=fe2o3-amqp/src/link/state.rs impl=`impl LinkFlowState<role::ReceiverMarker>` name=consume as=receiver_consume
 //@@ selfmut
-//@@ subst `self.lock.write()` => `&mut self.lock` rule=R4
+//@@ subst `self.lock.write()` => `(&mut self.lock)` rule=R4
 //@@ spec
     ensures
         old(self).lock.link_credit < count ==> r == Err::<(), ReceiverTransferError>(ReceiverTransferError::TransferLimitExceeded) && final(self).lock == old(self).lock,   // [C09.enforce.overrun] a delivery beyond the credit issued is refused as a transfer-limit violation; state untouched
@@ -176,8 +176,8 @@ pub struct ReceiverLink { pub flow_state: LinkFlowState<role::ReceiverMarker> }
 impl ReceiverLink {
 //@@ fn file=fe2o3-amqp/src/link/receiver_link.rs impl=`impl<T> ReceiverLink<T>` name=get_link_flow
 //@@ selfmut
-//@@ subst `self.flow_state.lock.write()` => `&mut self.flow_state.lock` rule=R4
-//@@ subst `self.flow_state.lock.read()` => `&self.flow_state.lock` rule=R4
+//@@ subst `self.flow_state.lock.write()` => `(&mut self.flow_state.lock)` rule=R4
+//@@ subst `self.flow_state.lock.read()` => `(&self.flow_state.lock)` rule=R4
 //@@ spec
     ensures
         ({
@@ -257,8 +257,8 @@ impl Clone for OutputHandle { fn clone(&self) -> (r: Self) ensures r == *self { 
 impl ReceiverDisposer {
 //@@ fn file=fe2o3-amqp/src/link/receiver.rs impl=`impl ReceiverDisposer` name=refresh_credit_if_needed
 //@@ selfmut
-//@@ subst `self.flow_state.lock.write()` => `&mut self.flow_state.lock` rule=optional-R4
-//@@ subst `self.flow_state.lock.read()` => `&self.flow_state.lock` rule=optional-R4
+//@@ subst `self.flow_state.lock.write()` => `(&mut self.flow_state.lock)` rule=optional-R4
+//@@ subst `self.flow_state.lock.read()` => `(&self.flow_state.lock)` rule=optional-R4
 //@@ subst `let handle: Handle = self .output_handle .clone() .ok_or(DispositionError::IllegalState)? .into();` => `let handle: Handle = output_to_handle(self.output_handle.clone().ok_or(DispositionError::IllegalState)?);` rule=R16
 //@@ subst `|_v0|` => `|_v0: ChanSendError|` rule=R5
 //@@ spec
